@@ -44,8 +44,9 @@ class TracedDeque(deque):
 
 
 class T:
-    def __init__(self, sc, tid, follow=0, steps=1, exc=None):
+    def __init__(self, sc, tid, follow=0, steps=1, exc=None, hold=False):
         self.sc, self.tid, self.follow, self.steps, self.exc = sc, tid, follow, steps, exc
+        self.hold = hold
         self.served = 0
         self.cancelled = 0
 
@@ -55,6 +56,9 @@ class T:
         self.sc.running.append(self.tid)
         for i in range(self.steps):
             s.yield_point("task.step")
+        if self.hold:
+            # a long-running request: keeps its worker busy until the first quiescence has been judged
+            s.block(lambda: self.sc.release, "task.hold")
         for k in range(self.follow):
             t = T(self.sc, "%s.%d" % (self.tid, k))
             self.sc.tasks.append(t)
@@ -82,6 +86,7 @@ def run_scenario(case, source, record_decisions=False):
     sc.sched = sched
     sc.tasks = []
     sc.running = []
+    sc.release = False
     qlog = []
     fails = []
     try:
@@ -96,7 +101,7 @@ def run_scenario(case, source, record_decisions=False):
         def submitter(specs, si):
             for j, sp in enumerate(specs):
                 sched.yield_point("submit")
-                t = T(sc, "s%d.%d" % (si, j), follow=sp.get("follow", 0), steps=sp.get("steps", 1), exc=sp.get("exc"))
+                t = T(sc, "s%d.%d" % (si, j), follow=sp.get("follow", 0), steps=sp.get("steps", 1), exc=sp.get("exc"), hold=bool(sp.get("hold")))
                 sc.tasks.append(t)
                 disp.add_task(t)
             done["subs"] += 1
@@ -119,6 +124,15 @@ def run_scenario(case, source, record_decisions=False):
         # ---- oracle at quiescence
         def fail(sig, detail):
             fails.append({"sig": "C14/" + sig, "detail": detail})
+
+        if any(sp.get("hold") for specs in case["submitters"] for sp in specs):
+            # first quiescence, some workers kept busy by long-running tasks: no task may sit in the queue next to an idle worker
+            idle = [n for n, what in sched.blocked() if n.startswith("waitress") and what == "cond.wait"]
+            waiting = [x.tid for x in disp.queue if not x.served and not x.cancelled]
+            if idle and waiting:
+                fail("queued-with-idle-workers", "first quiescence: %r queued while %r are idle (others are busy with long-running tasks)" % (waiting, idle))
+            sc.release = True
+            reason = sched.run()
 
         for t in sched.threads:
             if t.died:
@@ -187,6 +201,8 @@ def validate(case):
                 raise C.CaseInvalid("task")
             if t.get("exc") not in (None, "ValueError", "SystemExit", "KeyboardInterrupt"):
                 raise C.CaseInvalid("exc")
+            if t.get("hold") and (case.get("shutdown") is not None or t.get("hold") is not True):
+                raise C.CaseInvalid("hold")
     for op in case.get("ops", []):
         if not (isinstance(op, list) and op and op[0] == "resize" and isinstance(op[1], int) and 0 <= op[1] <= 4):
             raise C.CaseInvalid("op")
@@ -219,7 +235,7 @@ def run_case(case):
 # ---------------------------------------------------------------- generation
 def scenario_strategy():
     task = st.fixed_dictionaries({"follow": st.sampled_from([0, 0, 0, 1, 2]), "steps": st.integers(0, 2),
-                                  "exc": st.sampled_from([None, None, None, None, "ValueError", "SystemExit"])})
+                                  "exc": st.sampled_from([None, None, None, None, "ValueError", "SystemExit"]), "hold": st.sampled_from([False, False, False, True])})
     return st.fixed_dictionaries({
         "workers": st.integers(1, 3),
         "submitters": st.lists(st.lists(task, min_size=1, max_size=4), min_size=1, max_size=3),
@@ -227,7 +243,7 @@ def scenario_strategy():
         "shutdown": st.sampled_from([None, True, True, False]),
         "gran": st.sampled_from(["sync", "sync", "sync", "line"]),
         "schedule": S.schedule_strategy(),
-    })
+    }).map(lambda c: c if c["shutdown"] is None else dict(c, submitters=[[{k: v for k, v in t.items() if k != "hold"} for t in sp] for sp in c["submitters"]]))
 
 
 FIXED = [
@@ -236,6 +252,10 @@ FIXED = [
     {"workers": 2, "submitters": [[{"follow": 0, "steps": 2}, {"follow": 0, "steps": 0}]], "ops": [["resize", 1], ["resize", 2], ["resize", 2]], "shutdown": True},
     {"workers": 1, "submitters": [[{"follow": 2, "steps": 0}]], "ops": [], "shutdown": False},
     {"workers": 2, "submitters": [[{"follow": 0, "steps": 1}], [{"follow": 0, "steps": 1}]], "ops": [["resize", 0], ["resize", 2]], "shutdown": None},
+    # long-running tasks keep some workers busy: whatever else is submitted has to be taken by the idle ones
+    {"workers": 2, "submitters": [[{"follow": 0, "steps": 0, "hold": True}], [{"follow": 0, "steps": 0}]], "ops": [], "shutdown": None},
+    {"workers": 3, "submitters": [[{"follow": 0, "steps": 0, "hold": True}, {"follow": 0, "steps": 1}], [{"follow": 1, "steps": 0, "hold": True}]], "ops": [], "shutdown": None},
+    {"workers": 2, "submitters": [[{"follow": 0, "steps": 0}, {"follow": 0, "steps": 0, "hold": True}, {"follow": 0, "steps": 0}]], "ops": [["resize", 3]], "shutdown": None},
 ]
 
 
